@@ -1,0 +1,5 @@
+//go:build !verif
+
+package rapid
+
+func verifAt(string) {}
